@@ -624,6 +624,124 @@ where
     }
 }
 
+/// The VERIFIER authenticates every opened column against the commitment's root - at every position, and whatever it
+/// has verified before.  For an honest proof of p: the authentication path at position j is replaced by the path of
+/// the same position in the tree of another polynomial q (column and everything else genuine, so the two inner-product
+/// tests hold) - for every j; and the whole opening is taken from q's matrices under p's root (the prover run on
+/// q against commitment(p)).  All of them must be refused, cold (first thing the verifier sees) and warm (after the
+/// verifier has accepted 24 honest openings of p: 6 points x 4 transcript pre-states).
+pub fn authentication<S: RefOps + HashRef>(rec: &mut Rec)
+where
+    CK<S>: LinCodeParametersInfo<MT, ColH<Fr381>>,
+    S: Sch<F = Fr381>,
+{
+    use ark_crypto_primitives::merkle_tree::MerkleTree;
+    let cfg = slice_b::<S>();
+    for state in ["cold", "warm"] {
+        let id = format!("{}/authentication/{}/{}", S::NAME, cfg.id(), state);
+        if !rec.take(&id) {
+            continue;
+        }
+        rec.dim("scheme", S::NAME);
+        let keys = match build_keys::<S>(&cfg, rec.seed) {
+            Ok(k) => k,
+            Err(_) => continue,
+        };
+        let shapes = S::shapes(&cfg, rec.seed);
+        // q = p + 1: another polynomial with a matrix and a tree of the same shape
+        let pp = match shapes.iter().rev().find(|(m, _)| m.starts_with("dense")) {
+            Some(x) => x.1.clone(),
+            None => shapes[shapes.len() - 1].1.clone(),
+        };
+        let qq = S::plus_one(&pp);
+        let c = match commit_set::<S>(&keys, vec![lp::<S>("p", pp, None, None), lp::<S>("q", qq, None, None)], rec.seed, 0) {
+            Ok(c) => c,
+            Err(_) => continue,
+        };
+        let points = S::points(&cfg, rec.seed);
+        if state == "warm" {
+            let mut warm = 0u64;
+            for (_, pt) in points.iter().take(6) {
+                for pre in 0..4usize {
+                    if let Ok(s) = open_single::<S>(&keys, &c, &[0], pt, pre, rec.seed, 0) {
+                        if check_single::<S>(&keys, &[&c.comms[0]], pt, &s.values, &s.proof, pre, rec.seed, 0).accepted() {
+                            warm += 1;
+                        }
+                    }
+                }
+            }
+            rec.op(warm);
+            if warm == 0 {
+                rec.class("warm-up-none");
+                continue;
+            }
+        }
+        let z = points[0].1.clone();
+        let pre = 5usize;
+        let s = match open_single::<S>(&keys, &c, &[0], &z, pre, rec.seed, 0) {
+            Ok(s) => s,
+            Err(_) => continue,
+        };
+        let stq: MState<Fr381> = convert(&c.states[1]);
+        let mut leaves_q = stq.leaves.clone();
+        leaves_q.resize(leaves_q.len().next_power_of_two().max(2), Vec::new());
+        let tree_q = match catch(|| MerkleTree::<MT>::new(&(), &(), leaves_q.clone())) {
+            Ok(Ok(t)) => t,
+            _ => continue,
+        };
+        let bp: BPf<S> = vec![s.proof.clone()].into();
+        let honest: Vec<Vec<MProof<Fr381>>> = convert(&bp);
+        let t = honest[0][0].opening.paths.len();
+        let comms = [&c.comms[0]];
+        // control: the untouched proof is accepted
+        let d0 = check_single::<S>(&keys, &comms, &z, &s.values, &s.proof, pre, rec.seed, 0);
+        rec.count_points(1);
+        if !d0.accepted() {
+            rec.class("source-not-accepted");
+            continue;
+        }
+        let mut seen = std::collections::BTreeSet::new();
+        for j in 0..t {
+            let pos = honest[0][0].opening.paths[j].leaf_index;
+            let mut m = honest.clone();
+            m[0][0].opening.paths[j] = match catch(|| tree_q.generate_proof(pos)) {
+                Ok(Ok(p)) => p,
+                _ => continue,
+            };
+            let fb: BPf<S> = convert(&m);
+            let list: Vec<Pf<S>> = fb.into();
+            let d = check_single::<S>(&keys, &comms, &z, &s.values, &list[0], pre, rec.seed, 0);
+            rec.count_points(1);
+            rec.op(1);
+            rec.class(&format!("foreign-path-{}", d.class()));
+            if seen.insert(pos) {
+                rec.obs(&format!("{}|auth|{}|{}", S::NAME, state, d.class()));
+            }
+            if d.accepted() {
+                viol(rec, &format!("{}/check/column-not-authenticated", S::NAME), &id, format!("opened column {} (position {}) is accepted with the authentication path of another tree ({} verifier)", j, pos, state));
+                break;
+            }
+        }
+        // the whole opening from q's matrices under p's root
+        let q_as_p = lp::<S>("p", c.polys[1].polynomial().clone(), None, None);
+        let mut sponge = sponge_pre::<Fr381>(pre);
+        let mut rng = seed_rng(rec.seed, 20);
+        if let Ok(pf) = do_open::<S>(&keys.ck, &[&q_as_p], &[&c.comms[0]], &z, &mut sponge, &[&c.states[1]], Some(&mut rng as &mut dyn ark_std::rand::RngCore)) {
+            let vq = ark_poly::Polynomial::evaluate(c.polys[1].polynomial(), &z);
+            if vq != s.values[0] {
+                let d = check_single::<S>(&keys, &comms, &z, &[vq], &pf, pre, rec.seed, 0);
+                rec.count_points(1);
+                rec.op(1);
+                rec.class(&format!("foreign-opening-{}", d.class()));
+                if d.accepted() {
+                    viol(rec, &format!("{}/check/opening-of-another-tree", S::NAME), &id, format!("an opening computed from another polynomial's matrices (none of its {} columns belongs to the committed tree) is accepted for the false value ({} verifier)", t, state));
+                }
+            }
+        }
+        rec.sample(&format!("{}-auth", S::NAME), id.clone());
+    }
+}
+
 pub fn run(rec: &mut Rec) {
     let full: Vec<usize> = (1..=256).collect();
     // includes the band lambda + log2(n) ~ log2|F| for n up to 2^40 on the 253/255-bit fields, where the n/|F| term matters
@@ -638,6 +756,9 @@ pub fn run(rec: &mut Rec) {
     proofs::<SLig>(rec);
     proofs::<SMll>(rec);
     proofs::<SBrk>(rec);
+    authentication::<SLig>(rec);
+    authentication::<SMll>(rec);
+    authentication::<SBrk>(rec);
     brakedown_custom(rec);
     multi_proofs(rec);
     encoders::<SLig>(rec);
